@@ -191,7 +191,14 @@ def smkL : List FN → Nat → List SN × Nat
   | k :: ks, n => ((smk k n).1 :: (smkL ks (smk k n).2).1, (smkL ks (smk k n).2).2)
 end
 
-/-- the top-level blocks of a fragment, as the document parser produces them, and the next uid -/
+/-- the top-level blocks of a fragment, as the document parser produces them, and the next uid.
+
+    NOTE (review B, M6): for a multi-node fragment the list starts with an EMPTY text block.  That is the behaviour of the
+    CODE written into this specification, not a reading of the property: `createBlocksFromHTML` copies the `blocks` of the
+    invisible wrapper element, and every element's `blocks` start with the empty indent string it is created with
+    (`createBlocksFromHTML('hi <b>x</b>')` is `['', 'hi ', <b>]` on the library).  The property's wording — "no text that
+    is not in the fragment" — is proved on top of it in Props/C20.lean: every NON-EMPTY text block is the text of a token
+    of the fragment (`createBlocks_text_in_fragment`, `createBlocks_text_in_parse`). -/
 def sfragment (n : Nat) : Parsed → List SN × Nat
   | .single r => ([(smk r n).1], (smk r n).2)
   | .multi tops => (.text [] :: (smkL tops (n+1)).1, (smkL tops (n+1)).2)
